@@ -4,93 +4,124 @@ package vatomic
 
 import (
 	"sync/atomic"
+	"unsafe"
 
 	"github.com/osrg/gobgp/v4/internal/verif/sched"
 )
 
-func pt(op string) {
+func pt(op string, obj unsafe.Pointer) {
 	if s := sched.Active; s != nil && s.InThread() {
-		s.Point(op)
+		s.PointObj(op, uintptr(obj), op != "a.load" && op != "a.ctr.load")
 	}
 }
 
 type Bool struct{ v atomic.Bool }
 
-func (x *Bool) Load() bool                    { pt("a.load"); return x.v.Load() }
-func (x *Bool) Store(v bool)                  { pt("a.store"); x.v.Store(v) }
-func (x *Bool) Swap(v bool) bool              { pt("a.swap"); return x.v.Swap(v) }
-func (x *Bool) CompareAndSwap(o, n bool) bool { pt("a.cas"); return x.v.CompareAndSwap(o, n) }
+func (x *Bool) Load() bool       { pt("a.load", unsafe.Pointer(x)); return x.v.Load() }
+func (x *Bool) Store(v bool)     { pt("a.store", unsafe.Pointer(x)); x.v.Store(v) }
+func (x *Bool) Swap(v bool) bool { pt("a.swap", unsafe.Pointer(x)); return x.v.Swap(v) }
+func (x *Bool) CompareAndSwap(o, n bool) bool {
+	pt("a.cas", unsafe.Pointer(x))
+	return x.v.CompareAndSwap(o, n)
+}
 
 type Int32 struct{ v atomic.Int32 }
 
-func (x *Int32) Load() int32                    { pt("a.load"); return x.v.Load() }
-func (x *Int32) Store(v int32)                  { pt("a.store"); x.v.Store(v) }
-func (x *Int32) Add(d int32) int32              { pt("a.add"); return x.v.Add(d) }
-func (x *Int32) Swap(v int32) int32             { pt("a.swap"); return x.v.Swap(v) }
-func (x *Int32) CompareAndSwap(o, n int32) bool { pt("a.cas"); return x.v.CompareAndSwap(o, n) }
+func (x *Int32) Load() int32        { pt("a.load", unsafe.Pointer(x)); return x.v.Load() }
+func (x *Int32) Store(v int32)      { pt("a.store", unsafe.Pointer(x)); x.v.Store(v) }
+func (x *Int32) Add(d int32) int32  { pt("a.add", unsafe.Pointer(x)); return x.v.Add(d) }
+func (x *Int32) Swap(v int32) int32 { pt("a.swap", unsafe.Pointer(x)); return x.v.Swap(v) }
+func (x *Int32) CompareAndSwap(o, n int32) bool {
+	pt("a.cas", unsafe.Pointer(x))
+	return x.v.CompareAndSwap(o, n)
+}
 
 type Int64 struct{ v atomic.Int64 }
 
-func (x *Int64) Load() int64                    { pt("a.load"); return x.v.Load() }
-func (x *Int64) Store(v int64)                  { pt("a.store"); x.v.Store(v) }
-func (x *Int64) Add(d int64) int64              { pt("a.add"); return x.v.Add(d) }
-func (x *Int64) CompareAndSwap(o, n int64) bool { pt("a.cas"); return x.v.CompareAndSwap(o, n) }
+func (x *Int64) Load() int64       { pt("a.load", unsafe.Pointer(x)); return x.v.Load() }
+func (x *Int64) Store(v int64)     { pt("a.store", unsafe.Pointer(x)); x.v.Store(v) }
+func (x *Int64) Add(d int64) int64 { pt("a.add", unsafe.Pointer(x)); return x.v.Add(d) }
+func (x *Int64) CompareAndSwap(o, n int64) bool {
+	pt("a.cas", unsafe.Pointer(x))
+	return x.v.CompareAndSwap(o, n)
+}
 
 type Uint32 struct{ v atomic.Uint32 }
 
-func (x *Uint32) Load() uint32                    { pt("a.load"); return x.v.Load() }
-func (x *Uint32) Store(v uint32)                  { pt("a.store"); x.v.Store(v) }
-func (x *Uint32) Add(d uint32) uint32             { pt("a.add"); return x.v.Add(d) }
-func (x *Uint32) CompareAndSwap(o, n uint32) bool { pt("a.cas"); return x.v.CompareAndSwap(o, n) }
+func (x *Uint32) Load() uint32        { pt("a.load", unsafe.Pointer(x)); return x.v.Load() }
+func (x *Uint32) Store(v uint32)      { pt("a.store", unsafe.Pointer(x)); x.v.Store(v) }
+func (x *Uint32) Add(d uint32) uint32 { pt("a.add", unsafe.Pointer(x)); return x.v.Add(d) }
+func (x *Uint32) CompareAndSwap(o, n uint32) bool {
+	pt("a.cas", unsafe.Pointer(x))
+	return x.v.CompareAndSwap(o, n)
+}
 
 type Uint64 struct{ v atomic.Uint64 }
 
-func (x *Uint64) Load() uint64                    { pt("a.load"); return x.v.Load() }
-func (x *Uint64) Store(v uint64)                  { pt("a.store"); x.v.Store(v) }
-func (x *Uint64) Add(d uint64) uint64             { pt("a.add"); return x.v.Add(d) }
-func (x *Uint64) CompareAndSwap(o, n uint64) bool { pt("a.cas"); return x.v.CompareAndSwap(o, n) }
+func (x *Uint64) Load() uint64        { pt("a.load", unsafe.Pointer(x)); return x.v.Load() }
+func (x *Uint64) Store(v uint64)      { pt("a.store", unsafe.Pointer(x)); x.v.Store(v) }
+func (x *Uint64) Add(d uint64) uint64 { pt("a.add", unsafe.Pointer(x)); return x.v.Add(d) }
+func (x *Uint64) CompareAndSwap(o, n uint64) bool {
+	pt("a.cas", unsafe.Pointer(x))
+	return x.v.CompareAndSwap(o, n)
+}
 
 type Pointer[T any] struct{ v atomic.Pointer[T] }
 
-func (x *Pointer[T]) Load() *T                    { pt("a.load"); return x.v.Load() }
-func (x *Pointer[T]) Store(v *T)                  { pt("a.store"); x.v.Store(v) }
-func (x *Pointer[T]) Swap(v *T) *T                { pt("a.swap"); return x.v.Swap(v) }
-func (x *Pointer[T]) CompareAndSwap(o, n *T) bool { pt("a.cas"); return x.v.CompareAndSwap(o, n) }
+func (x *Pointer[T]) Load() *T     { pt("a.load", unsafe.Pointer(x)); return x.v.Load() }
+func (x *Pointer[T]) Store(v *T)   { pt("a.store", unsafe.Pointer(x)); x.v.Store(v) }
+func (x *Pointer[T]) Swap(v *T) *T { pt("a.swap", unsafe.Pointer(x)); return x.v.Swap(v) }
+func (x *Pointer[T]) CompareAndSwap(o, n *T) bool {
+	pt("a.cas", unsafe.Pointer(x))
+	return x.v.CompareAndSwap(o, n)
+}
 
 type Value struct{ v atomic.Value }
 
-func (x *Value) Load() any                    { pt("a.load"); return x.v.Load() }
-func (x *Value) Store(v any)                  { pt("a.store"); x.v.Store(v) }
-func (x *Value) Swap(v any) any               { pt("a.swap"); return x.v.Swap(v) }
-func (x *Value) CompareAndSwap(o, n any) bool { pt("a.cas"); return x.v.CompareAndSwap(o, n) }
+func (x *Value) Load() any      { pt("a.load", unsafe.Pointer(x)); return x.v.Load() }
+func (x *Value) Store(v any)    { pt("a.store", unsafe.Pointer(x)); x.v.Store(v) }
+func (x *Value) Swap(v any) any { pt("a.swap", unsafe.Pointer(x)); return x.v.Swap(v) }
+func (x *Value) CompareAndSwap(o, n any) bool {
+	pt("a.cas", unsafe.Pointer(x))
+	return x.v.CompareAndSwap(o, n)
+}
 
 // Function forms. Statistics counters (message counters, timestamps) are touched on every message;
 // they are points too ("a.ctr") so that the explorer's filter can thin them out.
-func AddUint32(p *uint32, d uint32) uint32 { pt("a.ctr"); return atomic.AddUint32(p, d) }
-func AddUint64(p *uint64, d uint64) uint64 { pt("a.ctr"); return atomic.AddUint64(p, d) }
-func AddInt32(p *int32, d int32) int32     { pt("a.ctr"); return atomic.AddInt32(p, d) }
-func AddInt64(p *int64, d int64) int64     { pt("a.ctr"); return atomic.AddInt64(p, d) }
-func LoadUint32(p *uint32) uint32          { pt("a.ctr"); return atomic.LoadUint32(p) }
-func LoadUint64(p *uint64) uint64          { pt("a.ctr"); return atomic.LoadUint64(p) }
-func LoadInt32(p *int32) int32             { pt("a.ctr"); return atomic.LoadInt32(p) }
-func LoadInt64(p *int64) int64             { pt("a.ctr"); return atomic.LoadInt64(p) }
-func StoreUint32(p *uint32, v uint32)      { pt("a.ctr"); atomic.StoreUint32(p, v) }
-func StoreUint64(p *uint64, v uint64)      { pt("a.ctr"); atomic.StoreUint64(p, v) }
-func StoreInt32(p *int32, v int32)         { pt("a.ctr"); atomic.StoreInt32(p, v) }
-func StoreInt64(p *int64, v int64)         { pt("a.ctr"); atomic.StoreInt64(p, v) }
+func AddUint32(p *uint32, d uint32) uint32 {
+	pt(ctrOp(), unsafe.Pointer(p))
+	return atomic.AddUint32(p, d)
+}
+func AddUint64(p *uint64, d uint64) uint64 {
+	pt(ctrOp(), unsafe.Pointer(p))
+	return atomic.AddUint64(p, d)
+}
+func AddInt32(p *int32, d int32) int32 { pt(ctrOp(), unsafe.Pointer(p)); return atomic.AddInt32(p, d) }
+func AddInt64(p *int64, d int64) int64 { pt(ctrOp(), unsafe.Pointer(p)); return atomic.AddInt64(p, d) }
+func LoadUint32(p *uint32) uint32      { pt("a.ctr.load", unsafe.Pointer(p)); return atomic.LoadUint32(p) }
+func LoadUint64(p *uint64) uint64      { pt("a.ctr.load", unsafe.Pointer(p)); return atomic.LoadUint64(p) }
+func LoadInt32(p *int32) int32         { pt("a.ctr.load", unsafe.Pointer(p)); return atomic.LoadInt32(p) }
+func LoadInt64(p *int64) int64         { pt("a.ctr.load", unsafe.Pointer(p)); return atomic.LoadInt64(p) }
+func StoreUint32(p *uint32, v uint32)  { pt(ctrOp(), unsafe.Pointer(p)); atomic.StoreUint32(p, v) }
+func StoreUint64(p *uint64, v uint64)  { pt(ctrOp(), unsafe.Pointer(p)); atomic.StoreUint64(p, v) }
+func StoreInt32(p *int32, v int32)     { pt(ctrOp(), unsafe.Pointer(p)); atomic.StoreInt32(p, v) }
+func StoreInt64(p *int64, v int64)     { pt(ctrOp(), unsafe.Pointer(p)); atomic.StoreInt64(p, v) }
 func CompareAndSwapInt32(p *int32, o, n int32) bool {
-	pt("a.cas")
+	pt("a.cas", unsafe.Pointer(p))
 	return atomic.CompareAndSwapInt32(p, o, n)
 }
 func CompareAndSwapUint32(p *uint32, o, n uint32) bool {
-	pt("a.cas")
+	pt("a.cas", unsafe.Pointer(p))
 	return atomic.CompareAndSwapUint32(p, o, n)
 }
 func CompareAndSwapInt64(p *int64, o, n int64) bool {
-	pt("a.cas")
+	pt("a.cas", unsafe.Pointer(p))
 	return atomic.CompareAndSwapInt64(p, o, n)
 }
 func CompareAndSwapUint64(p *uint64, o, n uint64) bool {
-	pt("a.cas")
+	pt("a.cas", unsafe.Pointer(p))
 	return atomic.CompareAndSwapUint64(p, o, n)
 }
+
+// ctrOp is the operation name of the function-form counter operations (one class for the filter).
+func ctrOp() string { return "a.ctr" }
